@@ -239,6 +239,8 @@ theorem emitP_succ : ∀ p w, shape (emitP (fuel+1) p w).2.1 = shape p := by
     simp only [emitP]
     split
     · rfl
+    split
+    · rfl
     · split
       · rfl
       · split
